@@ -77,6 +77,9 @@ def gen_case(tape, tier):
         else:
             ops.append({"op": "xarray", "intermediate": bool(tape.coin(0.5, "intermediate")), **via})
     cfg = {"storage": storage, "executor": executor, "preempt": tape.pick([0.1, 0.5], "preempt")}
+    if tape.coin(0.15, "reader-thread"):
+        # while the map starts, another thread of the same process is busy reading an OLDER run in another folder
+        cfg["reader_thread"] = True
     if spellings:
         # the run folder is named by a relative or an absolute path, and the working directory moves between loads
         cfg["run_via"] = tape.pick(["abs", "rel"], "run-via")
@@ -434,8 +437,34 @@ def _run_case(case, exec_seed=None, exec_tape=None):
 
         def procA():
             nonlocal idx
+            reader_done = [True]
+            if cfg.get("reader_thread"):
+                old = os.path.join(root, "older-run")
+                try:
+                    build_pipeline(w).map(build_inputs(w), run_folder=old, parallel=False, storage="file_array", **map_kwargs(w))
+                except Exception:  # noqa: BLE001 - refused by the tree: no older run to read, fine
+                    old = None
+                if old is not None:
+                    reader_done[0] = False
+                    kern = state["sim"].kernel
+
+                    def reader():
+                        try:
+                            for _ in range(2):
+                                RunInfo.load(old)
+                                load_outputs(all_outputs(w)[0], run_folder=old)
+                        except Exception:  # noqa: BLE001 - the reader's own trouble is not what is being judged
+                            pass
+                        finally:
+                            reader_done[0] = True
+
+                    state["sim"].fs.read_yields = True  # file reads are pre-emption points while two threads are at work
+                    kern.spawn(reader, "reader", proc=kern.current.proc)
+                    probes["reader_thread"] = 1
             try:
                 do_run()
+                if not reader_done[0]:
+                    state["sim"].kernel.block_until(lambda: reader_done[0], "join-reader")
             except (Deadlock, StepCap) as e:
                 run_err.append(e)
                 return
